@@ -130,6 +130,7 @@ printf("(%d) pzgstrf_column_bmod[1]: %d, nseg %d, krep %d, jsupno %d, ksupno %d\
 	    lptr = xlsub[fsupc] + d_fsupc;
 	    kfnz = repfnz[krep];
 	    kfnz = SUPERLU_MAX ( kfnz, fpanelc );
+	    SLU_MT_VERIF_EVENT(SLU_EV_UPD_STEP, pnum, jcol, kfnz, krep, 0);
 	    segsze = krep - kfnz + 1;
 	    nsupc = krep - fst_col + 1;
 	    nsupr = xlsub_end[fsupc] - xlsub[fsupc]; /* Leading dimension */
@@ -322,6 +323,7 @@ if (jcol == -1) {
     fst_col = SUPERLU_MAX ( fsupc, fpanelc );
 
     if ( fst_col < jcol ) {
+	SLU_MT_VERIF_EVENT(SLU_EV_UPD_STEP, pnum, jcol, fst_col, jcol-1, 0);
 
   	/* distance between the current supernode and the current panel;
 	   d_fsupc=0 if fsupc >= fpanelc. */
